@@ -1,6 +1,7 @@
 (** C16 — lemmas over Model.v *)
 From Coq Require Import ZArith List String Ascii Bool Lia Permutation.
 From OBI.C16 Require Import Model.
+From OBI.Common Require Reseq.
 Import ListNotations.
 Open Scope string_scope.
 Open Scope list_scope.
@@ -56,19 +57,22 @@ Lemma fold_and_none : forall A (mk : A -> pred) l r,
 Proof. intros; rewrite fold_and_holds; reflexivity. Qed.
 
 Definition nonempty {A} (l : list A) : bool := match l with [] => false | _ => true end.
+Lemma forallb_ext' : forall A (f g : A -> bool) l, (forall x, f x = g x) -> forallb f l = forallb g l.
+Proof. intros A f g l H; induction l as [|x t IH]; simpl; [reflexivity|]. rewrite H, IH; reflexivity. Qed.
 
 Section GrepProofs.
   Variables RE EXPR APAT TAXQ : Type.
   Variable re_match : bool -> RE -> string -> bool.
   Variable eval_bool : EXPR -> arec -> bool.
-  Variable approx_match : APAT -> arec -> bool.
+  Variable approx_match : APAT -> Z -> bool -> string -> bool.
+  Variable apat_rc : APAT -> APAT.
   Variable tax_pred : TAXQ -> arec -> bool.
   Notation gopts := (gopts RE EXPR APAT TAXQ).
-  Notation impl_base := (impl_base RE EXPR APAT TAXQ re_match eval_bool approx_match tax_pred).
-  Notation impl_pred := (impl_pred RE EXPR APAT TAXQ re_match eval_bool approx_match tax_pred).
-  Notation impl_paired := (impl_paired RE EXPR APAT TAXQ re_match eval_bool approx_match tax_pred).
-  Notation spec_pred := (spec_pred RE EXPR APAT TAXQ re_match eval_bool approx_match tax_pred).
-  Notation spec_sel := (spec_sel RE EXPR APAT TAXQ re_match eval_bool approx_match tax_pred).
+  Notation impl_base := (impl_base RE EXPR APAT TAXQ re_match eval_bool approx_match apat_rc tax_pred).
+  Notation impl_pred := (impl_pred RE EXPR APAT TAXQ re_match eval_bool approx_match apat_rc tax_pred).
+  Notation impl_paired := (impl_paired RE EXPR APAT TAXQ re_match eval_bool approx_match apat_rc tax_pred).
+  Notation spec_pred := (spec_pred RE EXPR APAT TAXQ re_match eval_bool approx_match apat_rc tax_pred).
+  Notation spec_sel := (spec_sel RE EXPR APAT TAXQ re_match eval_bool approx_match apat_rc tax_pred).
 
   (** the guards of the builders: records are non-empty, counts positive, both below the 2e9 sentinel *)
   Definition wf_rec (r : arec) : Prop := 1 <= rlen r < SENT /\ 1 <= rcount r < SENT.
@@ -124,19 +128,14 @@ Section GrepProofs.
   Proof.
     intros o r [Hl Hc]. unfold Model.impl_base, Model.spec_pred.
     rewrite !holds_p_and, holds_size, holds_count, holds_tax, holds_attrs, holds_idlist, !holds_chain_and by assumption.
-    rewrite !andb_assoc. reflexivity.
+    rewrite !andb_assoc. reflexivity.    (* approx_pred is convertible to the || / && form of the statement *)
   Qed.
 
-  Theorem grep_exact : forall (o : gopts) r, wf_rec r ->
-    invert _ _ _ _ o = false \/ impl_base o <> None ->
-    holds (impl_pred o) r = spec_sel o r.
+  (** -v: exactly the others, for EVERY option set (the negation of the nil predicate rejects every record) *)
+  Theorem grep_exact : forall (o : gopts) r, wf_rec r -> holds (impl_pred o) r = spec_sel o r.
   Proof.
-    intros o r Hw Hg. unfold Model.impl_pred, Model.spec_sel.
-    destruct (invert _ _ _ _ o) eqn:Hi.
-    - destruct Hg as [Hg|Hg]; [discriminate|].
-      rewrite <- (grep_base_exact o r Hw).
-      destruct (impl_base o) as [f|]; [reflexivity|congruence].
-    - apply grep_base_exact; assumption.
+    intros o r Hw. unfold Model.impl_pred, Model.spec_sel. rewrite <- (grep_base_exact o r Hw).
+    destruct (invert _ _ _ _ o); [|reflexivity]. destruct (impl_base o) as [f|]; reflexivity.
   Qed.
 
   (** which option sets give a non-nil predicate *)
@@ -148,23 +147,25 @@ Section GrepProofs.
     nonempty (reqattrs _ _ _ _ o) || nonempty (attrpats _ _ _ _ o) || nonempty (approx _ _ _ _ o).
 
   (** -v with no effective criterion: the nil predicate is returned and every record is kept *)
-  Theorem grep_invert_nil : forall (o : gopts) r, impl_base o = None -> holds (impl_pred o) r = true.
+  Theorem grep_invert_nil : forall (o : gopts) r, impl_base o = None -> holds (impl_pred o) r = negb (invert _ _ _ _ o).
   Proof. intros o r H. unfold Model.impl_pred. rewrite H. destruct (invert _ _ _ _ o); reflexivity. Qed.
 
   (** paired modes *)
-  Theorem paired_modes : forall (o : gopts) r mate, wf_rec r -> wf_rec mate -> impl_base o <> None ->
+  Theorem paired_modes : forall (o : gopts) r mate, wf_rec r -> wf_rec mate ->
     holds2 (impl_paired o) r (Some mate) = mode_fun (pairmode _ _ _ _ o) (spec_sel o r) (spec_sel o mate).
   Proof.
-    intros o r mate Hr Hm Hn. unfold Model.impl_paired.
-    rewrite <- (grep_exact o r Hr (or_intror Hn)), <- (grep_exact o mate Hm (or_intror Hn)).
-    assert (Hp : impl_pred o <> None).
-    { unfold Model.impl_pred. destruct (invert _ _ _ _ o); destruct (impl_base o); simpl; congruence. }
-    destruct (impl_pred o) as [f|]; [|congruence]. simpl.
-    destruct (pairmode _ _ _ _ o); simpl; try reflexivity.
-    destruct (f r), (f mate); reflexivity.
+    intros o r mate Hr Hm. unfold Model.impl_paired.
+    rewrite <- (grep_exact o r Hr), <- (grep_exact o mate Hm).
+    destruct (impl_pred o) as [f|]; simpl.
+    - unfold paired_some. destruct (pairmode _ _ _ _ o); simpl; try reflexivity.
+      destruct (f r), (f mate); reflexivity.
+    - destruct (pairmode _ _ _ _ o); reflexivity.
   Qed.
   Theorem paired_unpaired : forall (o : gopts) r, holds2 (impl_paired o) r None = holds (impl_pred o) r.
-  Proof. intros o r. unfold Model.impl_paired. destruct (impl_pred o); reflexivity. Qed.
+  Proof.
+    intros o r. unfold Model.impl_paired. destruct (impl_pred o); [reflexivity|].
+    destruct (pairmode _ _ _ _ o); reflexivity.
+  Qed.
 End GrepProofs.
 
 (** * DivideOn / FilterOn *)
@@ -212,35 +213,35 @@ Section GrepProofs2.
   Variables RE EXPR APAT TAXQ : Type.
   Variable re_match : bool -> RE -> string -> bool.
   Variable eval_bool : EXPR -> arec -> bool.
-  Variable approx_match : APAT -> arec -> bool.
+  Variable approx_match : APAT -> Z -> bool -> string -> bool.
+  Variable apat_rc : APAT -> APAT.
   Variable tax_pred : TAXQ -> arec -> bool.
   Notation gopts := (gopts RE EXPR APAT TAXQ).
-  Notation impl_base := (impl_base RE EXPR APAT TAXQ re_match eval_bool approx_match tax_pred).
-  Notation impl_pred := (impl_pred RE EXPR APAT TAXQ re_match eval_bool approx_match tax_pred).
-  Notation impl_paired := (impl_paired RE EXPR APAT TAXQ re_match eval_bool approx_match tax_pred).
-  Notation spec_pred := (spec_pred RE EXPR APAT TAXQ re_match eval_bool approx_match tax_pred).
-  Notation spec_sel := (spec_sel RE EXPR APAT TAXQ re_match eval_bool approx_match tax_pred).
+  Notation impl_base := (impl_base RE EXPR APAT TAXQ re_match eval_bool approx_match apat_rc tax_pred).
+  Notation impl_pred := (impl_pred RE EXPR APAT TAXQ re_match eval_bool approx_match apat_rc tax_pred).
+  Notation impl_paired := (impl_paired RE EXPR APAT TAXQ re_match eval_bool approx_match apat_rc tax_pred).
+  Notation spec_pred := (spec_pred RE EXPR APAT TAXQ re_match eval_bool approx_match apat_rc tax_pred).
+  Notation spec_sel := (spec_sel RE EXPR APAT TAXQ re_match eval_bool approx_match apat_rc tax_pred).
 
 
   Theorem grep_divide_exact : forall (o : gopts) l, Forall wf_rec l ->
-    invert _ _ _ _ o = false \/ impl_base o <> None ->
     divide_on (holds (impl_pred o)) l = (filter (spec_sel o) l, filter (fun r => negb (spec_sel o r)) l).
   Proof.
-    intros o l Hl Hg. rewrite divide_on_spec. rewrite Forall_forall in Hl.
-    f_equal; apply filter_ext_in; intros r Hr; rewrite (grep_exact RE EXPR APAT TAXQ re_match eval_bool approx_match tax_pred o r (Hl r Hr) Hg); reflexivity.
+    intros o l Hl. rewrite divide_on_spec. rewrite Forall_forall in Hl.
+    f_equal; apply filter_ext_in; intros r Hr; rewrite (grep_exact RE EXPR APAT TAXQ re_match eval_bool approx_match apat_rc tax_pred o r (Hl r Hr)); reflexivity.
   Qed.
 
   Theorem paired_divide_exact : forall (o : gopts) l,
-    Forall (fun fr : arec * arec => wf_rec (fst fr) /\ wf_rec (snd fr)) l -> impl_base o <> None ->
+    Forall (fun fr : arec * arec => wf_rec (fst fr) /\ wf_rec (snd fr)) l ->
     let sel := fun fr : arec * arec => mode_fun (pairmode _ _ _ _ o) (spec_sel o (fst fr)) (spec_sel o (snd fr)) in
     let out := grep_paired_divide (holds2 (impl_paired o)) l in
     combine (fst (fst out)) (snd (fst out)) = filter sel l /\
     combine (fst (snd out)) (snd (snd out)) = filter (fun fr => negb (sel fr)) l.
   Proof.
-    intros o l Hl Hn sel out. unfold out, grep_paired_divide. rewrite divide_on_spec. simpl.
+    intros o l Hl sel out. unfold out, grep_paired_divide. rewrite divide_on_spec. simpl.
     rewrite !combine_fst_snd. rewrite Forall_forall in Hl.
     split; apply filter_ext_in; intros fr Hin; destruct (Hl fr Hin) as [H1 H2]; unfold sel;
-      rewrite (paired_modes RE EXPR APAT TAXQ re_match eval_bool approx_match tax_pred o (fst fr) (snd fr) H1 H2 Hn); reflexivity.
+      rewrite (paired_modes RE EXPR APAT TAXQ re_match eval_bool approx_match apat_rc tax_pred o (fst fr) (snd fr) H1 H2); reflexivity.
   Qed.
 End GrepProofs2.
 
@@ -310,28 +311,45 @@ Proof.
   - specialize (Ha r); simpl in Ha. destruct (g r) as [r'|]; simpl in Ha; [|discriminate].
     injection Ha as Ha; subst r'. simpl. exact (Hb r).
 Qed.
-Lemma out_none : forall r, out None r = olist (Some r).
-Proof. reflexivity. Qed.
-Lemma out_pure : forall f r, out (Some (fun r => Some [f r])) r = olist (Some (f r)).
-Proof. reflexivity. Qed.
-
 Lemma set_attrs_id : forall r, set_attrs r (rattrs r) = r.
 Proof. intros [i a s]; reflexivity. Qed.
+Lemma obind_some_r : forall x, obind x Some = x.
+Proof. intros [r|]; reflexivity. Qed.
+
+(** the chain of the steps: each step stands for a partial edit [g]; the whole chain is their Kleisli composition *)
+Lemma fold_chain_out : forall (steps : list (option worker)) (gs : list (arec -> option arec)),
+  Forall2 (fun w g => forall r, out w r = olist (g r)) steps gs ->
+  forall a g0, (forall r, out a r = olist (g0 r)) ->
+  forall r, out (fold_left chain steps a) r = olist (fold_left (fun f g => fun r => obind (f r) g) gs g0 r).
+Proof.
+  intros steps gs H; induction H as [|w g ws gs Hw _ IH]; intros a g0 Ha r; simpl.
+  - apply Ha.
+  - apply IH. intros r0. apply chain_out; assumption.
+Qed.
+Lemma out_none : forall r, out None r = olist (Some r).
+Proof. reflexivity. Qed.
 
 Section AnnotProofs.
   Variable VEXPR : Type.
   Variable eval_val : VEXPR -> arec -> option aval.
-  Notation aopts := (aopts VEXPR).
-  Notation impl_worker := (impl_worker VEXPR eval_val).
-  Notation impl_annot := (impl_annot VEXPR eval_val).
-  Notation spec_annot := (spec_annot VEXPR eval_val).
+  Variable at_rank : string -> arec -> arec.
+  Variables set_path set_trank set_sciname : arec -> arec.
+  Variable set_lca : string -> arec -> arec.
+  Variable AHO : Type.
+  Variable aho_edit : AHO -> arec -> arec.
+  Variable APAT : Type.
+  Variable apat_src : APAT -> string.
+  Variable apat_rc : APAT -> APAT.
+  Variable best_match : APAT -> Z -> bool -> string -> option (Z * Z * Z).
+  Notation aopts := (aopts VEXPR AHO APAT).
+  Notation impl_worker := (impl_worker VEXPR eval_val at_rank set_path set_trank set_sciname set_lca AHO aho_edit APAT apat_src apat_rc best_match).
+  Notation impl_annot := (impl_annot VEXPR eval_val at_rank set_path set_trank set_sciname set_lca AHO aho_edit APAT apat_src apat_rc best_match).
+  Notation impl_annot_sel := (impl_annot_sel VEXPR eval_val at_rank set_path set_trank set_sciname set_lca AHO aho_edit APAT apat_src apat_rc best_match).
+  Notation spec_annot := (spec_annot VEXPR eval_val at_rank set_path set_trank set_sciname set_lca AHO aho_edit APAT apat_src apat_rc best_match).
+  Notation spec_annot_sel := (spec_annot_sel VEXPR eval_val at_rank set_path set_trank set_sciname set_lca AHO aho_edit APAT apat_src apat_rc best_match).
   Notation e_settag := (e_settag VEXPR eval_val).
   Notation e_setid := (e_setid VEXPR eval_val).
-
-  Lemma out_partial : forall (f : arec -> option arec) r, out (Some (partial f)) r = olist (f r).
-  Proof. intros f r; unfold out, partial. destruct (f r); reflexivity. Qed.
-  Lemma out_pure' : forall f r, out (Some (pure f)) r = olist (Some (f r)).
-  Proof. reflexivity. Qed.
+  Notation e_pattern := (e_pattern APAT apat_src apat_rc best_match).
 
   Lemma eval_attr_fold : forall l w g, (forall r, out w r = olist (g r)) ->
     forall r, out (fold_left (fun w ke => chain w (Some (partial (e_settag ke)))) l w) r =
@@ -340,73 +358,84 @@ Section AnnotProofs.
     intros l; induction l as [|ke l IH]; intros w g Hw r; simpl.
     - apply Hw.
     - apply (IH _ (fun r => obind (g r) (e_settag ke))).
-      intros r0. apply chain_out; [exact Hw|]. intros r1; apply out_partial.
+      intros r0. apply chain_out; [exact Hw|]. intros r1; unfold out, partial. destruct (e_settag ke r1); reflexivity.
   Qed.
 
-  (** a step of CLIAnnotationWorker: `if requested { annotator = annotator.ChainWorkers(w) }` *)
-  Definition step (c : bool) (g : arec -> option arec) (g2 : arec -> option arec) : arec -> option arec :=
-    fun r => if c then obind (g r) g2 else g r.
+  Definition annot_gs (o : aopts) : list (arec -> option arec) :=
+    [ (fun x => Some (if aclear _ _ _ o then e_clear x else x));
+      (fun x => match asetid _ _ _ o with Some e => e_setid e x | None => Some x end);
+      (fun x => Some (e_delete (adelete _ _ _ o) x));
+      (fun x => Some (match akeep _ _ _ o with [] => x | ks => e_keep ks x end));
+      (fun x => Some (e_rename (arename _ _ _ o) x));
+      (fun x => Some (e_taxranks at_rank (ataxrank _ _ _ o) x));
+      (fun x => Some (if apath _ _ _ o then set_path x else x));
+      (fun x => Some (if atrank _ _ _ o then set_trank x else x));
+      (fun x => Some (if asciname _ _ _ o then set_sciname x else x));
+      (fun x => Some (if negb (String.eqb (alca _ _ _ o) "") then set_lca (alca _ _ _ o) x else x));
+      (fun x => Some (if alength _ _ _ o then e_length x else x));
+      (fun x => fold_left (fun y ke => obind y (e_settag ke)) (asettag _ _ _ o) (Some x));
+      (fun x => Some (match aaho _ _ _ o with Some h => aho_edit h x | None => x end));
+      (fun x => match has_cut VEXPR AHO APAT o with Some (f, t) => e_cut f t x | None => Some x end);
+      (fun x => Some (match apattern _ _ _ o with
+                      | Some p => e_pattern p (ptname _ _ _ o) (pterr _ _ _ o) (negb (ptfwd _ _ _ o)) (ptindel _ _ _ o) x
+                      | None => x end)) ].
+
+  Lemma annot_steps_gs : forall (o : aopts),
+    Forall2 (fun w g => forall r, out w r = olist (g r))
+            (annot_steps VEXPR eval_val at_rank set_path set_trank set_sciname set_lca AHO aho_edit APAT apat_src apat_rc best_match o) (annot_gs o).
+  Proof.
+    intros o. unfold annot_steps, annot_gs, pure, partial.
+    repeat apply Forall2_cons; try apply Forall2_nil; intros r.
+    - destruct (aclear _ _ _ o); reflexivity.
+    - destruct (asetid _ _ _ o) as [e|]; [|reflexivity]. unfold out. destruct (e_setid e r); reflexivity.
+    - destruct (adelete _ _ _ o); [|reflexivity]. unfold e_delete; simpl. rewrite set_attrs_id; reflexivity.
+    - destruct (akeep _ _ _ o); reflexivity.
+    - destruct (arename _ _ _ o); reflexivity.
+    - destruct (ataxrank _ _ _ o); reflexivity.
+    - destruct (apath _ _ _ o); reflexivity.
+    - destruct (atrank _ _ _ o); reflexivity.
+    - destruct (asciname _ _ _ o); reflexivity.
+    - destruct (negb (String.eqb (alca _ _ _ o) "")); reflexivity.
+    - destruct (alength _ _ _ o); reflexivity.
+    - destruct (asettag _ _ _ o) as [|k ks]; [reflexivity|]. unfold eval_attr_worker.
+      apply (eval_attr_fold (k :: ks) None Some). intros; reflexivity.
+    - destruct (aaho _ _ _ o); reflexivity.
+    - destruct (has_cut VEXPR AHO APAT o) as [[f t]|]; [|reflexivity]. unfold out. destruct (e_cut f t r); reflexivity.
+    - destruct (apattern _ _ _ o); reflexivity.
+  Qed.
+
+  Theorem annot_worker_exact : forall (o : aopts) r, out (impl_worker o) r = olist (spec_annot o r).
+  Proof.
+    intros o r. unfold Model.impl_worker.
+    rewrite (fold_chain_out _ _ (annot_steps_gs o) None Some out_none r). f_equal.
+    unfold annot_gs, Model.spec_annot. cbn [fold_left obind].
+    destruct (asetid _ _ _ o) as [e|]; cbn [obind].
+    - destruct (e_setid e (if aclear _ _ _ o then e_clear r else r)) as [r1|]; cbn [obind]; [|reflexivity].
+      match goal with |- context [fold_left ?f ?l (Some ?x)] => destruct (fold_left f l (Some x)) as [r3|] end; cbn [obind]; [|reflexivity].
+      destruct (has_cut VEXPR AHO APAT o) as [[f t]|]; cbn [obind]; [|reflexivity].
+      match goal with |- context [e_cut f t ?x] => destruct (e_cut f t x) end; reflexivity.
+    - match goal with |- context [fold_left ?f ?l (Some ?x)] => destruct (fold_left f l (Some x)) as [r3|] end; cbn [obind]; [|reflexivity].
+      destruct (has_cut VEXPR AHO APAT o) as [[f t]|]; cbn [obind]; [|reflexivity].
+      match goal with |- context [e_cut f t ?x] => destruct (e_cut f t x) end; reflexivity.
+  Qed.
 
   Theorem annot_exact : forall (o : aopts) r, impl_annot o r = olist (spec_annot o r).
+  Proof. intros o r. exact (annot_worker_exact o r). Qed.
+
+  (** selection options: the selected records are edited, the others are written unchanged (and a selection without any
+      edit is the identity) *)
+  Theorem annot_sel_exact : forall (sel : option pred) (o : aopts) r,
+    impl_annot_sel sel o r = spec_annot_sel (holds sel) o r.
   Proof.
-    intros o r.
-    assert (H : forall r, out (impl_worker o) r = olist (spec_annot o r)).
-    { clear r. unfold Model.impl_worker, Model.spec_annot.
-      set (g1 := fun r : arec => Some (if aclear _ o then e_clear r else r)).
-      assert (H1 : forall r, out (if aclear _ o then chain None (Some (pure e_clear)) else None) r = olist (g1 r)).
-      { intros r; unfold g1; destruct (aclear _ o); reflexivity. }
-      revert H1. generalize (if aclear _ o then chain None (Some (pure e_clear)) else None) as a1. intros a1 H1.
-      set (g2 := fun r => obind (g1 r) (fun r => match asetid _ o with Some e => e_setid e r | None => Some r end)).
-      assert (H2 : forall r, out (match asetid _ o with Some e => chain a1 (Some (partial (e_setid e))) | None => a1 end) r = olist (g2 r)).
-      { intros r; unfold g2. destruct (asetid _ o) as [e|].
-        - apply chain_out; [exact H1|]. intros r0; apply out_partial.
-        - rewrite H1. destruct (g1 r); reflexivity. }
-      revert H2. generalize (match asetid _ o with Some e => chain a1 (Some (partial (e_setid e))) | None => a1 end) as a2. intros a2 H2.
-      set (g3 := fun r => obind (g2 r) (fun r => Some (e_delete (adelete _ o) r))).
-      assert (H3 : forall r, out (match adelete _ o with [] => a2 | ks => chain a2 (Some (pure (e_delete ks))) end) r = olist (g3 r)).
-      { intros r; unfold g3. destruct (adelete _ o) as [|k ks] eqn:E.
-        - rewrite H2. destruct (g2 r) as [x|]; simpl; [|reflexivity]. unfold e_delete; simpl. rewrite set_attrs_id; reflexivity.
-        - apply chain_out; [exact H2|]. intros r0; reflexivity. }
-      revert H3. generalize (match adelete _ o with [] => a2 | ks => chain a2 (Some (pure (e_delete ks))) end) as a3. intros a3 H3.
-      set (g4 := fun r => obind (g3 r) (fun r => Some (match akeep _ o with [] => r | ks => e_keep ks r end))).
-      assert (H4 : forall r, out (match akeep _ o with [] => a3 | ks => chain a3 (Some (pure (e_keep ks))) end) r = olist (g4 r)).
-      { intros r; unfold g4. destruct (akeep _ o) as [|k ks] eqn:E.
-        - rewrite H3. destruct (g3 r); reflexivity.
-        - apply chain_out; [exact H3|]. intros r0; reflexivity. }
-      revert H4. generalize (match akeep _ o with [] => a3 | ks => chain a3 (Some (pure (e_keep ks))) end) as a4. intros a4 H4.
-      set (g5 := fun r => obind (g4 r) (fun r => Some (e_rename (arename _ o) r))).
-      assert (H5 : forall r, out (match arename _ o with [] => a4 | l => chain a4 (Some (pure (e_rename l))) end) r = olist (g5 r)).
-      { intros r; unfold g5. destruct (arename _ o) as [|k ks] eqn:E.
-        - rewrite H4. destruct (g4 r) as [x|]; simpl; [|reflexivity]. unfold e_rename; simpl. rewrite set_attrs_id; reflexivity.
-        - apply chain_out; [exact H4|]. intros r0; reflexivity. }
-      revert H5. generalize (match arename _ o with [] => a4 | l => chain a4 (Some (pure (e_rename l))) end) as a5. intros a5 H5.
-      set (g6 := fun r => obind (g5 r) (fun r => Some (if alength _ o then e_length r else r))).
-      assert (H6 : forall r, out (if alength _ o then chain a5 (Some (pure e_length)) else a5) r = olist (g6 r)).
-      { intros r; unfold g6. destruct (alength _ o).
-        - apply chain_out; [exact H5|]. intros r0; reflexivity.
-        - rewrite H5. destruct (g5 r); reflexivity. }
-      revert H6. generalize (if alength _ o then chain a5 (Some (pure e_length)) else a5) as a6. intros a6 H6.
-      set (g7 := fun r => obind (g6 r) (fun r => fold_left (fun x ke => obind x (e_settag ke)) (asettag _ o) (Some r))).
-      assert (H7 : forall r, out (match asettag _ o with [] => a6 | l => chain a6 (eval_attr_worker VEXPR eval_val l) end) r = olist (g7 r)).
-      { intros r; unfold g7. destruct (asettag _ o) as [|k ks] eqn:E.
-        - rewrite H6. destruct (g6 r); reflexivity.
-        - apply chain_out; [exact H6|]. intros r0. unfold eval_attr_worker.
-          apply (eval_attr_fold (k :: ks) None Some). intros; reflexivity. }
-      revert H7. generalize (match asettag _ o with [] => a6 | l => chain a6 (eval_attr_worker VEXPR eval_val l) end) as a7. intros a7 H7.
-      intros r.
-      assert (H8 : out (match has_cut VEXPR o with Some (f, t) => chain a7 (Some (partial (e_cut f t))) | None => a7 end) r =
-                   olist (obind (g7 r) (fun r => match has_cut VEXPR o with Some (f, t) => e_cut f t r | None => Some r end))).
-      { destruct (has_cut VEXPR o) as [[f t]|].
-        - apply chain_out; [exact H7|]. intros r0; apply out_partial.
-        - rewrite H7. destruct (g7 r); reflexivity. }
-      rewrite H8. unfold g7, g6, g5, g4, g3, g2, g1. simpl.
-      destruct (asetid _ o) as [e|]; simpl.
-      - destruct (e_setid e (if aclear _ o then e_clear r else r)); reflexivity.
-      - reflexivity. }
-    unfold Model.impl_annot. specialize (H r). unfold out in H. exact H.
+    intros sel o r. unfold Model.impl_annot_sel, Model.spec_annot_sel.
+    pose proof (annot_worker_exact o r) as H. unfold out, olist in H. unfold olist'.
+    destruct sel as [c|]; simpl.
+    - destruct (impl_worker o) as [w|].
+      + destruct (c r); simpl; [|reflexivity]. rewrite H. destruct (spec_annot o r); reflexivity.
+      + destruct (c r); [|reflexivity]. rewrite <- H. reflexivity.
+    - unfold Model.impl_annot. rewrite H. destruct (spec_annot o r); reflexivity.
   Qed.
 End AnnotProofs.
-
 (** * which option sets give the nil predicate *)
 Lemma p_and_none : forall a b, p_and a b = None <-> a = None /\ b = None.
 Proof. intros [f|] [g|]; simpl; split; intros H; try discriminate; try tauto; destruct H; discriminate. Qed.
@@ -429,7 +458,8 @@ Section Eff.
   Variables RE EXPR APAT TAXQ : Type.
   Variable re_match : bool -> RE -> string -> bool.
   Variable eval_bool : EXPR -> arec -> bool.
-  Variable approx_match : APAT -> arec -> bool.
+  Variable approx_match : APAT -> Z -> bool -> string -> bool.
+  Variable apat_rc : APAT -> APAT.
   Variable tax_pred : TAXQ -> arec -> bool.
   Notation gopts := (gopts RE EXPR APAT TAXQ).
 
@@ -464,21 +494,13 @@ Section Eff.
   Proof. intros o; unfold idlist_pred. destruct (idlist _ _ _ _ o); split; intros H; try discriminate; reflexivity. Qed.
 
   Theorem impl_base_none_iff : forall (o : gopts),
-    impl_base RE EXPR APAT TAXQ re_match eval_bool approx_match tax_pred o = None <-> effective RE EXPR APAT TAXQ o = false.
+    impl_base RE EXPR APAT TAXQ re_match eval_bool approx_match apat_rc tax_pred o = None <-> effective RE EXPR APAT TAXQ o = false.
   Proof.
     intros o. unfold impl_base, effective.
     rewrite !p_and_none, size_none, count_none, tax_none, attrs_none, idlist_none, !chain_and_none.
     rewrite !orb_false_iff. tauto.
   Qed.
 End Eff.
-
-Theorem grep_invert_nil_witness :
-  exists (o : cgopts) (r : arec), invert _ _ _ _ o = true /\ wf_rec r /\
-    c_spec_sel o r = false /\ holds (c_impl_pred o) r = true.
-Proof.
-  exists (mkg 1 SENT 1 SENT [] [] [] [] [] [] None true MForward [] [] []), (mkr "w1" [("count", VI 6)] "acgtacgtac").
-  unfold wf_rec. vm_compute. intuition discriminate.
-Qed.
 
 (** * edits leave the rest of the record unchanged *)
 Lemma lookup_remove_ne : forall k k' a, String.eqb k k' = false -> lookup k (remove_key k' a) = lookup k a.
@@ -513,47 +535,91 @@ Proof.
   - destruct (String.eqb k k2) eqn:E2; [|exact IH].
     apply String.eqb_eq in E2; subst k2. congruence.
 Qed.
-Lemma lookup_rename1 : forall k no a, String.eqb k (fst no) = false -> String.eqb k (snd no) = false ->
-  lookup k (rename1 a no) = lookup k a.
+Definition is_special (k : string) : bool := String.eqb k "id" || String.eqb k "sequence" || String.eqb k "qualities".
+Lemma set_attr_lookup_ne : forall r k k' v, String.eqb k k' = false -> lookup k (rattrs (set_attr r k' v)) = lookup k (rattrs r).
 Proof.
-  intros k [n o] a H1 H2; unfold rename1; simpl in *. destruct (lookup o a); [|reflexivity].
-  rewrite lookup_remove_ne by exact H2. apply lookup_set_ne; exact H1.
+  intros r k k' v H. unfold set_attr.
+  destruct (String.eqb k' "id"); [reflexivity|]. destruct (String.eqb k' "sequence"); [reflexivity|].
+  destruct (String.eqb k' "qualities"); [reflexivity|]. simpl. apply lookup_set_ne; exact H.
 Qed.
-Lemma lookup_rename_fold : forall l k a,
-  existsb (fun no : string * string => String.eqb k (fst no) || String.eqb k (snd no)) l = false ->
-  lookup k (fold_left rename1 l a) = lookup k a.
+Lemma set_attr_id_seq : forall r k v, is_special k = false -> rid (set_attr r k v) = rid r /\ rseq (set_attr r k v) = rseq r.
 Proof.
-  intros l; induction l as [|x t IH]; intros k a H; simpl; [reflexivity|].
+  intros r k v H. unfold is_special in H. rewrite !orb_false_iff in H. destruct H as [[H1 H2] H3].
+  unfold set_attr. rewrite H1, H2, H3. simpl; auto.
+Qed.
+Lemma lookup_rename1 : forall k no r, String.eqb k (fst no) = false -> String.eqb k (snd no) = false ->
+  lookup k (rattrs (rename1 r no)) = lookup k (rattrs r).
+Proof.
+  intros k [n o] r H1 H2; unfold rename1; simpl in *. destruct (get_attr r o) as [v|]; [|reflexivity].
+  simpl. rewrite lookup_remove_ne by exact H2. apply set_attr_lookup_ne; exact H1.
+Qed.
+Lemma rename1_id_seq : forall no r, is_special (fst no) = false -> rid (rename1 r no) = rid r /\ rseq (rename1 r no) = rseq r.
+Proof.
+  intros [n o] r H; unfold rename1; simpl in *. destruct (get_attr r o) as [v|]; [|auto].
+  simpl. apply set_attr_id_seq; exact H.
+Qed.
+Lemma lookup_rename_fold : forall l k r,
+  existsb (fun no : string * string => String.eqb k (fst no) || String.eqb k (snd no)) l = false ->
+  lookup k (rattrs (fold_left rename1 l r)) = lookup k (rattrs r).
+Proof.
+  intros l; induction l as [|x t IH]; intros k r H; simpl; [reflexivity|].
   simpl in H. apply orb_false_iff in H; destruct H as [H1 H2]. apply orb_false_iff in H1; destruct H1 as [Ha Hb].
   rewrite IH by exact H2. apply lookup_rename1; assumption.
+Qed.
+Lemma rename_fold_id_seq : forall l r, existsb (fun no : string * string => is_special (fst no)) l = false ->
+  rid (fold_left rename1 l r) = rid r /\ rseq (fold_left rename1 l r) = rseq r.
+Proof.
+  intros l; induction l as [|x t IH]; intros r H; simpl; [auto|].
+  simpl in H. apply orb_false_iff in H; destruct H as [H1 H2].
+  destruct (IH (rename1 r x) H2) as [A B]. destruct (rename1_id_seq x r H1) as [C D]. rewrite A, B, C, D; auto.
 Qed.
 
 Section Untouched.
   Variable VEXPR : Type.
   Variable eval_val : VEXPR -> arec -> option aval.
-  Notation aopts := (aopts VEXPR).
+  Variable at_rank : string -> arec -> arec.
+  Variables set_path set_trank set_sciname : arec -> arec.
+  Variable set_lca : string -> arec -> arec.
+  Variable AHO : Type.
+  Variable aho_edit : AHO -> arec -> arec.
+  Variable APAT : Type.
+  Variable apat_src : APAT -> string.
+  Variable apat_rc : APAT -> APAT.
+  Variable best_match : APAT -> Z -> bool -> string -> option (Z * Z * Z).
+  Notation aopts := (aopts VEXPR AHO APAT).
+  Notation spec_annot := (spec_annot VEXPR eval_val at_rank set_path set_trank set_sciname set_lca AHO aho_edit APAT apat_src apat_rc best_match).
   Notation e_settag := (e_settag VEXPR eval_val).
   Notation e_setid := (e_setid VEXPR eval_val).
 
+  (** no external edit (taxonomy, aho-corasick, --pattern) is requested: what those write is the business of their own components *)
+  Definition no_ext (o : aopts) : Prop :=
+    ataxrank _ _ _ o = [] /\ apath _ _ _ o = false /\ atrank _ _ _ o = false /\ asciname _ _ _ o = false /\
+    alca _ _ _ o = "" /\ aaho _ _ _ o = None /\ apattern _ _ _ o = None.
   Definition touched (o : aopts) (k : string) : bool :=
-    mem_str k (adelete _ o) ||
-    existsb (fun no : string * string => String.eqb k (fst no) || String.eqb k (snd no)) (arename _ o) ||
-    (alength _ o && String.eqb k "seq_length") ||
-    existsb (fun ke : string * VEXPR => String.eqb k (fst ke)) (asettag _ o).
+    mem_str k (adelete _ _ _ o) ||
+    existsb (fun no : string * string => String.eqb k (fst no) || String.eqb k (snd no)) (arename _ _ _ o) ||
+    (alength _ _ _ o && String.eqb k "seq_length") ||
+    existsb (fun ke : string * VEXPR => String.eqb k (fst ke)) (asettag _ _ _ o).
+  (** a rename or -S edit aimed at the record fields id / sequence *)
+  Definition sets_special (o : aopts) : bool :=
+    existsb (fun no : string * string => is_special (fst no)) (arename _ _ _ o) ||
+    existsb (fun ke : string * VEXPR => is_special (fst ke)) (asettag _ _ _ o).
 
   Lemma settag_fold_none : forall l, fold_left (fun x ke => obind x (e_settag ke)) l None = None.
   Proof. intros l; induction l as [|x t IH]; simpl; [reflexivity|exact IH]. Qed.
   Lemma settag_fold : forall l r r' k,
     fold_left (fun x ke => obind x (e_settag ke)) l (Some r) = Some r' ->
-    rseq r' = rseq r /\ rid r' = rid r /\
-    (existsb (fun ke : string * VEXPR => String.eqb k (fst ke)) l = false -> lookup k (rattrs r') = lookup k (rattrs r)).
+    (existsb (fun ke : string * VEXPR => String.eqb k (fst ke)) l = false -> lookup k (rattrs r') = lookup k (rattrs r)) /\
+    (existsb (fun ke : string * VEXPR => is_special (fst ke)) l = false -> rseq r' = rseq r /\ rid r' = rid r).
   Proof.
     intros l; induction l as [|ke t IH]; intros r r' k H; simpl in H.
     - injection H as H; subst r'. auto.
     - unfold Model.e_settag in H at 2. destruct (eval_val (snd ke) r) as [v|]; simpl in H.
-      + destruct (IH _ _ k H) as [Hs [Hi Ha]]. simpl in *. repeat split; try assumption.
-        intros Hk. apply orb_false_iff in Hk; destruct Hk as [Hk1 Hk2]. rewrite (Ha Hk2).
-        apply lookup_set_ne; exact Hk1.
+      + destruct (IH _ _ k H) as [Ha Hs]. split.
+        * intros Hk. simpl in Hk. apply orb_false_iff in Hk; destruct Hk as [Hk1 Hk2]. rewrite (Ha Hk2).
+          apply set_attr_lookup_ne; exact Hk1.
+        * intros Hk. simpl in Hk. apply orb_false_iff in Hk; destruct Hk as [Hk1 Hk2]. destruct (Hs Hk2) as [S1 S2].
+          destruct (set_attr_id_seq r (fst ke) v Hk1) as [I1 I2]. rewrite S1, S2, I1, I2; auto.
       + rewrite settag_fold_none in H; discriminate.
   Qed.
   Lemma e_cut_attrs : forall f t r r', e_cut f t r = Some r' -> rattrs r' = rattrs r.
@@ -565,60 +631,70 @@ Section Untouched.
   Lemma e_setid_keeps : forall e r r', e_setid e r = Some r' -> rattrs r' = rattrs r /\ rseq r' = rseq r.
   Proof. intros e r r' H; unfold Model.e_setid in H. destruct (eval_val e r); [|discriminate]. injection H as H; subst r'; auto. Qed.
 
-  (** the record after the edits that precede -S (clear excluded) *)
-  Lemma spec_annot_inv : forall (o : aopts) r r', spec_annot VEXPR eval_val o r = Some r' ->
+  (** the record after the edits that precede -S *)
+  Lemma spec_annot_inv : forall (o : aopts) r r', no_ext o -> spec_annot o r = Some r' ->
     exists r1 r2 r3,
-      (match asetid _ o with Some e => e_setid e (if aclear _ o then e_clear r else r) | None => Some (if aclear _ o then e_clear r else r) end) = Some r1 /\
-      r2 = (let x := e_delete (adelete _ o) r1 in
-            let x := match akeep _ o with [] => x | ks => e_keep ks x end in
-            let x := e_rename (arename _ o) x in
-            if alength _ o then e_length x else x) /\
-      fold_left (fun x ke => obind x (e_settag ke)) (asettag _ o) (Some r2) = Some r3 /\
-      (match has_cut VEXPR o with Some (f, t) => e_cut f t r3 | None => Some r3 end) = Some r'.
+      (match asetid _ _ _ o with Some e => e_setid e (if aclear _ _ _ o then e_clear r else r) | None => Some (if aclear _ _ _ o then e_clear r else r) end) = Some r1 /\
+      r2 = (let x := e_delete (adelete _ _ _ o) r1 in
+            let x := match akeep _ _ _ o with [] => x | ks => e_keep ks x end in
+            let x := e_rename (arename _ _ _ o) x in
+            if alength _ _ _ o then e_length x else x) /\
+      fold_left (fun x ke => obind x (e_settag ke)) (asettag _ _ _ o) (Some r2) = Some r3 /\
+      (match has_cut VEXPR AHO APAT o with Some (f, t) => e_cut f t r3 | None => Some r3 end) = Some r'.
   Proof.
-    intros o r r' H. unfold Model.spec_annot in H.
-    destruct (match asetid _ o with Some e => e_setid e (if aclear _ o then e_clear r else r) | None => Some (if aclear _ o then e_clear r else r) end) as [r1|] eqn:E1; simpl in H; [|discriminate].
+    intros o r r' [N1 [N2 [N3 [N4 [N5 [N6 N7]]]]]] H. unfold Model.spec_annot in H.
+    rewrite N1, N2, N3, N4, N5, N6, N7 in H. cbn [e_taxranks fold_left String.eqb negb] in H.
+    destruct (match asetid _ _ _ o with Some e => e_setid e (if aclear _ _ _ o then e_clear r else r) | None => Some (if aclear _ _ _ o then e_clear r else r) end) as [r1|] eqn:E1; simpl in H; [|discriminate].
     match type of H with obind ?x _ = _ => destruct x as [r3|] eqn:E3 end; simpl in H; [|discriminate].
-    exists r1. eexists. exists r3. split; [reflexivity|]. split; [reflexivity|]. split; [exact E3|exact H].
+    exists r1. eexists. exists r3. split; [reflexivity|]. split; [reflexivity|]. split; [exact E3|].
+    destruct (has_cut VEXPR AHO APAT o) as [[f t]|]; simpl in H.
+    - destruct (e_cut f t r3); simpl in H; [exact H|discriminate].
+    - exact H.
   Qed.
 
-  Theorem annot_untouched : forall (o : aopts) r r' k,
-    spec_annot VEXPR eval_val o r = Some r' ->
-    aclear _ o = false -> (akeep _ o = [] \/ mem_str k (akeep _ o) = true) -> touched o k = false ->
+  Theorem annot_untouched : forall (o : aopts) r r' k, no_ext o ->
+    spec_annot o r = Some r' ->
+    aclear _ _ _ o = false -> (akeep _ _ _ o = [] \/ mem_str k (akeep _ _ _ o) = true) -> touched o k = false ->
     lookup k (rattrs r') = lookup k (rattrs r).
   Proof.
-    intros o r r' k H Hc Hk Ht. destruct (spec_annot_inv o r r' H) as [r1 [r2 [r3 [E1 [E2 [E3 E4]]]]]].
+    intros o r r' k Hn H Hc Hk Ht. destruct (spec_annot_inv o r r' Hn H) as [r1 [r2 [r3 [E1 [E2 [E3 E4]]]]]].
     unfold touched in Ht. rewrite !orb_false_iff in Ht. destruct Ht as [[[Td Tr] Tl] Ts].
     rewrite Hc in E1.
     assert (A1 : rattrs r1 = rattrs r).
-    { destruct (asetid _ o) as [e|]; [apply (e_setid_keeps e r r1 E1)|injection E1 as E1; subst; reflexivity]. }
+    { destruct (asetid _ _ _ o) as [e|]; [apply (e_setid_keeps e r r1 E1)|injection E1 as E1; subst; reflexivity]. }
     assert (A3 : lookup k (rattrs r3) = lookup k (rattrs r2)) by (apply (settag_fold _ _ _ k E3); exact Ts).
     assert (A4 : rattrs r' = rattrs r3).
-    { destruct (has_cut VEXPR o) as [[f t]|]; [apply (e_cut_attrs f t r3 r' E4)|injection E4 as E4; subst; reflexivity]. }
+    { destruct (has_cut VEXPR AHO APAT o) as [[f t]|]; [apply (e_cut_attrs f t r3 r' E4)|injection E4 as E4; subst; reflexivity]. }
     rewrite A4, A3, <- A1. subst r2. cbv zeta.
-    assert (B : forall x, lookup k (rattrs (if alength _ o then e_length x else x)) = lookup k (rattrs x)).
-    { intros x. destruct (alength _ o); [|reflexivity]. simpl in Tl. unfold e_length; simpl. apply lookup_set_ne; exact Tl. }
-    rewrite B. unfold e_rename; simpl. rewrite lookup_rename_fold by exact Tr.
-    assert (C : forall x, lookup k (rattrs (match akeep _ o with [] => x | ks => e_keep ks x end)) = lookup k (rattrs x)).
+    assert (B : forall x, lookup k (rattrs (if alength _ _ _ o then e_length x else x)) = lookup k (rattrs x)).
+    { intros x. destruct (alength _ _ _ o); [|reflexivity]. simpl in Tl. unfold e_length; simpl. apply lookup_set_ne; exact Tl. }
+    rewrite B. unfold e_rename. rewrite lookup_rename_fold by exact Tr.
+    assert (C : forall x, lookup k (rattrs (match akeep _ _ _ o with [] => x | ks => e_keep ks x end)) = lookup k (rattrs x)).
     { intros x. destruct Hk as [Hk|Hk]; [rewrite Hk; reflexivity|].
-      destruct (akeep _ o) as [|a b] eqn:E; [reflexivity|]. unfold e_keep, set_attrs; cbn [rattrs]. apply lookup_keep; exact Hk. }
+      destruct (akeep _ _ _ o) as [|a b] eqn:E; [reflexivity|]. unfold e_keep, set_attrs; cbn [rattrs]. apply lookup_keep; exact Hk. }
     rewrite C. unfold e_delete; simpl. apply lookup_delete_fold; exact Td.
   Qed.
 
-  Theorem annot_seq_id_untouched : forall (o : aopts) r r',
-    spec_annot VEXPR eval_val o r = Some r' -> has_cut VEXPR o = None ->
-    rseq r' = rseq r /\ (asetid _ o = None -> rid r' = rid r).
+  Theorem annot_seq_id_untouched : forall (o : aopts) r r', no_ext o -> sets_special o = false ->
+    spec_annot o r = Some r' -> has_cut VEXPR AHO APAT o = None ->
+    rseq r' = rseq r /\ (asetid _ _ _ o = None -> rid r' = rid r).
   Proof.
-    intros o r r' H Hc. destruct (spec_annot_inv o r r' H) as [r1 [r2 [r3 [E1 [E2 [E3 E4]]]]]].
+    intros o r r' Hn Hsp H Hc. destruct (spec_annot_inv o r r' Hn H) as [r1 [r2 [r3 [E1 [E2 [E3 E4]]]]]].
+    unfold sets_special in Hsp. apply orb_false_iff in Hsp. destruct Hsp as [Sr Ss].
     rewrite Hc in E4. injection E4 as E4; subst r3.
-    destruct (settag_fold _ _ _ "" E3) as [S3 [I3 _]].
+    destruct (proj2 (settag_fold _ _ _ "" E3) Ss) as [S3 I3].
     assert (S2 : rseq r2 = rseq r1 /\ rid r2 = rid r1).
-    { subst r2. cbv zeta. destruct (alength _ o); destruct (akeep _ o); simpl; auto. }
+    { subst r2. cbv zeta.
+      assert (Q : forall x, rseq (if alength _ _ _ o then e_length x else x) = rseq x /\ rid (if alength _ _ _ o then e_length x else x) = rid x)
+        by (intros x; destruct (alength _ _ _ o); simpl; auto).
+      destruct (Q (e_rename (arename _ _ _ o) match akeep _ _ _ o with [] => e_delete (adelete _ _ _ o) r1 | ks => e_keep ks (e_delete (adelete _ _ _ o) r1) end)) as [Q1 Q2].
+      rewrite Q1, Q2. unfold e_rename. destruct (rename_fold_id_seq (arename _ _ _ o) match akeep _ _ _ o with [] => e_delete (adelete _ _ _ o) r1 | ks => e_keep ks (e_delete (adelete _ _ _ o) r1) end Sr) as [R1 R2].
+      rewrite R1, R2. destruct (akeep _ _ _ o); simpl; auto. }
     destruct S2 as [S2 I2]. rewrite S3, S2, I3, I2. split.
-    - destruct (asetid _ o) as [e|].
-      + destruct (e_setid_keeps e _ _ E1) as [_ Hs]. rewrite Hs. destruct (aclear _ o); reflexivity.
-      + injection E1 as E1; subst r1. destruct (aclear _ o); reflexivity.
-    - intros Hn. rewrite Hn in E1. injection E1 as E1; subst r1. destruct (aclear _ o); reflexivity.
+    - destruct (asetid _ _ _ o) as [e|].
+      + destruct (e_setid_keeps e _ _ E1) as [_ Hs]. rewrite Hs. destruct (aclear _ _ _ o); reflexivity.
+      + injection E1 as E1; subst r1. destruct (aclear _ _ _ o); reflexivity.
+    - intros Hn'. rewrite Hn' in E1. injection E1 as E1; subst r1. destruct (aclear _ _ _ o); reflexivity.
   Qed.
 End Untouched.
 
@@ -664,4 +740,361 @@ Proof.
     replace (t - f0) with (t - from + 1) by (unfold f0; lia). reflexivity.
   - apply Z.leb_gt in E.
     replace (t <=? f0) with true by (symmetry; apply Z.leb_le; unfold f0; lia). reflexivity.
+Qed.
+
+(** * the same loops at the level of batches: what is pushed, batch by batch, flattens to the record-level streams *)
+Lemma concat_snoc : forall A (o : list (list A)) t, List.concat (o ++ [t]) = List.concat o ++ t.
+Proof. intros; rewrite concat_app; simpl; rewrite app_nil_r; reflexivity. Qed.
+Lemma filter_snoc : forall A (p : A -> bool) l s, filter p (l ++ [s]) = filter p l ++ (if p s then [s] else []).
+Proof. intros; rewrite filter_app; simpl. destruct (p s); reflexivity. Qed.
+
+Section BatchProofs.
+  Variables A K : Type.
+  Variable keq : K -> K -> bool.
+  Variable code : A -> K.
+  Variable n : nat.
+  Hypothesis keq_eq : forall a b, keq a b = true <-> a = b.
+  Variable p : A -> bool.
+
+  (** DivideOn *)
+  Definition div_inv (st : vstate A) (l : list A) : Prop :=
+    List.concat (vto A st) ++ vt A st = filter p l /\ List.concat (vfo A st) ++ vf A st = filter (fun x => negb (p x)) l.
+  Lemma div_step_inv : forall st l s, div_inv st l -> div_inv (div_step A n p st s) (l ++ [s]).
+  Proof.
+    intros [t f to fo] l s [Ht Hf]; simpl in *. unfold div_inv, div_step; simpl. rewrite !filter_snoc, <- Ht, <- Hf.
+    destruct (p s); simpl;
+      destruct (Nat.eqb (List.length _) n); destruct (Nat.eqb (List.length _) n); simpl;
+      rewrite ?concat_snoc, ?app_nil_r, ?app_assoc; split; reflexivity.
+  Qed.
+  Lemma div_fold_inv : forall l st l0, div_inv st l0 -> div_inv (fold_left (div_step A n p) l st) (l0 ++ l).
+  Proof.
+    intros l; induction l as [|s l IH]; intros st l0 H; simpl.
+    - rewrite app_nil_r; exact H.
+    - replace (l0 ++ s :: l) with ((l0 ++ [s]) ++ l) by (rewrite <- app_assoc; reflexivity).
+      apply IH, div_step_inv, H.
+  Qed.
+  Theorem divide_batches_flat : forall bs,
+    List.concat (fst (divide_batches A n p bs)) = filter p (List.concat bs) /\
+    List.concat (snd (divide_batches A n p bs)) = filter (fun x => negb (p x)) (List.concat bs).
+  Proof.
+    intros bs. unfold divide_batches.
+    destruct (div_fold_inv (List.concat bs) (mkv A [] [] [] []) [] (conj eq_refl eq_refl)) as [Ht Hf].
+    simpl in Ht, Hf. unfold div_flush; simpl. rewrite <- Ht, <- Hf.
+    destruct (vt A _); destruct (vf A _); rewrite ?concat_snoc, ?app_nil_r; split; reflexivity.
+  Qed.
+
+  (** FilterOn workers + Rebatch *)
+  Theorem filter_batches_flat : forall bs, List.concat (filter_batches A p bs) = filter p (List.concat bs).
+  Proof.
+    intros bs; unfold filter_batches; induction bs as [|b bs IH]; simpl; [reflexivity|].
+    rewrite filter_app, IH; reflexivity.
+  Qed.
+  Lemma rebatch_fold_inv : forall l st, List.concat (rout A (fold_left (rebatch_step A n) l st)) ++ rbuf A (fold_left (rebatch_step A n) l st)
+                                        = (List.concat (rout A st) ++ rbuf A st) ++ l.
+  Proof.
+    intros l; induction l as [|s l IH]; intros st; simpl; [rewrite app_nil_r; reflexivity|].
+    rewrite IH. unfold rebatch_step. destruct (Nat.eqb (List.length (rbuf A st ++ [s])) n); simpl;
+      rewrite ?concat_snoc, ?app_nil_r, <- ?app_assoc; reflexivity.
+  Qed.
+  Theorem rebatch_flat : forall bs, List.concat (rebatch A n bs) = List.concat bs.
+  Proof.
+    intros bs. unfold rebatch. pose proof (rebatch_fold_inv (List.concat bs) (mkrs A [] [])) as H. simpl in H.
+    destruct (rbuf A _); [rewrite app_nil_r in H; exact H|rewrite concat_snoc; exact H].
+  Qed.
+  (** every batch pushed by Rebatch(n) but the last holds exactly n records (n >= 1), the last one between 1 and n *)
+  Theorem filteron_records : forall bs,
+    List.concat (rebatch A n (filter_batches A p bs)) = filter p (List.concat bs).
+  Proof. intros; rewrite rebatch_flat; apply filter_batches_flat. Qed.
+
+  (** Distribute *)
+  Definition haskey (k : K) (sl : list (K * list A)) : bool := existsb (fun kl => keq k (fst kl)) sl.
+  Fixpoint distinct (sl : list (K * list A)) : Prop :=
+    match sl with [] => True | (k, _) :: t => haskey k t = false /\ distinct t end.
+  Lemma keq_refl' : forall a, keq a a = true.
+  Proof. intros a; apply keq_eq; reflexivity. Qed.
+  Lemma keq_sym : forall a b, keq a b = keq b a.
+  Proof.
+    intros a b. destruct (keq a b) eqn:E1; destruct (keq b a) eqn:E2; try reflexivity.
+    - apply keq_eq in E1; subst b. rewrite keq_refl' in E2; discriminate.
+    - apply keq_eq in E2; subst b. rewrite keq_refl' in E1; discriminate.
+  Qed.
+  Lemma get_put : forall k k' l sl, get_slice A K keq k (put_slice A K keq k' l sl) = if keq k k' then l else get_slice A K keq k sl.
+  Proof.
+    intros k k' l sl; induction sl as [|[k2 l2] t IH]; simpl.
+    - destruct (keq k k'); reflexivity.
+    - destruct (keq k' k2) eqn:E2; simpl.
+      + apply keq_eq in E2; subst k2. destruct (keq k k'); reflexivity.
+      + destruct (keq k k2) eqn:E3.
+        * apply keq_eq in E3; subst k2. destruct (keq k k') eqn:E4; [|reflexivity].
+          apply keq_eq in E4; subst k'. rewrite keq_refl' in E2; discriminate.
+        * exact IH.
+  Qed.
+  Lemma haskey_put : forall k k' l sl, haskey k (put_slice A K keq k' l sl) = haskey k sl || keq k k'.
+  Proof.
+    intros k k' l sl; unfold haskey; induction sl as [|[k2 l2] t IH]; simpl.
+    - rewrite orb_false_r; reflexivity.
+    - destruct (keq k' k2) eqn:E2; simpl.
+      + apply keq_eq in E2; subst k2. destruct (keq k k'); simpl; [reflexivity|]. rewrite orb_false_r; reflexivity.
+      + rewrite IH. rewrite orb_assoc; reflexivity.
+  Qed.
+  Lemma distinct_put : forall k l sl, distinct sl -> distinct (put_slice A K keq k l sl).
+  Proof.
+    intros k l sl; induction sl as [|[k2 l2] t IH]; simpl; intros H.
+    - auto.
+    - destruct H as [H1 H2]. destruct (keq k k2) eqn:E; simpl.
+      + auto.
+      + split; [|apply IH; exact H2]. rewrite haskey_put, H1. rewrite keq_sym, E. reflexivity.
+  Qed.
+  Lemma get_nokey : forall k sl, haskey k sl = false -> get_slice A K keq k sl = [].
+  Proof.
+    intros k sl; induction sl as [|[k2 l2] t IH]; simpl; intros H; [reflexivity|].
+    apply orb_false_iff in H; destruct H as [H1 H2]. simpl in H1. rewrite H1. apply IH; exact H2.
+  Qed.
+  Lemma get_out_push : forall k k' b o, get_out A K keq k (push_out A K keq k' b o) =
+    if keq k k' then get_out A K keq k o ++ [b] else get_out A K keq k o.
+  Proof.
+    intros k k' b o; induction o as [|[k2 l2] t IH]; simpl.
+    - destruct (keq k k'); reflexivity.
+    - destruct (keq k' k2) eqn:E2; simpl.
+      + apply keq_eq in E2; subst k2. destruct (keq k k'); reflexivity.
+      + destruct (keq k k2) eqn:E3.
+        * apply keq_eq in E3; subst k2. destruct (keq k k') eqn:E4; [|reflexivity].
+          apply keq_eq in E4; subst k'. rewrite keq_refl' in E2; discriminate.
+        * exact IH.
+  Qed.
+  Definition dist_inv (st : dstate A K) (l : list A) : Prop :=
+    distinct (dslices A K st) /\
+    forall k, List.concat (get_out A K keq k (douts A K st)) ++ get_slice A K keq k (dslices A K st) = filter (fun s => keq k (code s)) l.
+  Lemma dist_step_inv : forall st l s, dist_inv st l -> dist_inv (dist_step A K keq code n st s) (l ++ [s]).
+  Proof.
+    intros [sl o] l s [Hd H]; simpl in *. unfold dist_inv, dist_step; simpl.
+    destruct (Nat.eqb (List.length (get_slice A K keq (code s) sl ++ [s])) n); simpl.
+    - split; [apply distinct_put; exact Hd|]. intros k. rewrite filter_snoc, <- H, get_put, get_out_push.
+      destruct (keq k (code s)) eqn:E.
+      + apply keq_eq in E; subst k. rewrite concat_snoc, !app_nil_r, app_assoc. reflexivity.
+      + rewrite app_nil_r; reflexivity.
+    - split; [apply distinct_put; exact Hd|]. intros k. rewrite filter_snoc, <- H, get_put.
+      destruct (keq k (code s)) eqn:E.
+      + apply keq_eq in E; subst k. rewrite app_assoc. reflexivity.
+      + rewrite app_nil_r; reflexivity.
+  Qed.
+  Lemma dist_fold_inv : forall l st l0, dist_inv st l0 -> dist_inv (fold_left (dist_step A K keq code n) l st) (l0 ++ l).
+  Proof.
+    intros l; induction l as [|s l IH]; intros st l0 H; simpl.
+    - rewrite app_nil_r; exact H.
+    - replace (l0 ++ s :: l) with ((l0 ++ [s]) ++ l) by (rewrite <- app_assoc; reflexivity).
+      apply IH, dist_step_inv, H.
+  Qed.
+  Lemma flush_spec : forall sl o k, distinct sl ->
+    List.concat (get_out A K keq k (fold_left (fun o ks => match snd ks with [] => o | x :: l' => push_out A K keq (fst ks) (x :: l') o end) sl o)) =
+    List.concat (get_out A K keq k o) ++ get_slice A K keq k sl.
+  Proof.
+    intros sl; induction sl as [|[k2 l2] t IH]; intros o k Hd; simpl.
+    - rewrite app_nil_r; reflexivity.
+    - destruct Hd as [H1 H2]. rewrite IH by exact H2.
+      destruct (keq k k2) eqn:E.
+      + apply keq_eq in E; subst k2. rewrite (get_nokey k t H1), app_nil_r.
+        destruct l2 as [|x l2]; [rewrite app_nil_r; reflexivity|].
+        rewrite get_out_push, keq_refl', concat_snoc; reflexivity.
+      + destruct l2 as [|x l2]; [reflexivity|]. rewrite get_out_push, E; reflexivity.
+  Qed.
+  (** [core] every output receives, batch after batch, exactly the records of its class in input order — whatever the batch
+      size and however many times a class buffer fills up within a run of records of the same class *)
+  Theorem distribute_batches_flat : forall bs k,
+    List.concat (get_out A K keq k (distribute_batches A K keq code n bs)) = filter (fun s => keq k (code s)) (List.concat bs).
+  Proof.
+    intros bs k. unfold distribute_batches, dist_flush.
+    destruct (dist_fold_inv (List.concat bs) (mkd A K [] []) []) as [Hd H].
+    { split; [exact I|]. intros k0; reflexivity. }
+    simpl in H. rewrite <- H.
+    match goal with |- context [fold_left _ (dslices A K ?st) (douts A K ?st)] => apply (flush_spec (dslices A K st) (douts A K st) k Hd) end.
+  Qed.
+End BatchProofs.
+
+(** * any schedule: the batches reach SortBatches in any order (parallel readers / FilterOn workers); the re-sequencer of
+    Common/Reseq.v restores the order numbers, so the record-level results do not depend on the schedule *)
+Theorem filteron_any_schedule : forall (A : Type) (n : nat) (p : A -> bool) (bs : list (list A)) arr,
+  Permutation arr (Reseq.numbered (filter_batches A p bs)) ->
+  List.concat (rebatch A n (Reseq.out (Reseq.run arr))) = filter p (List.concat bs).
+Proof.
+  intros A n p bs arr H. destruct (Reseq.reseq_any_permutation _ _ _ H) as [Ho _]. rewrite Ho. apply filteron_records.
+Qed.
+Theorem distribute_any_arrival : forall (A K : Type) (keq : K -> K -> bool) (code : A -> K) (n : nat),
+  (forall a b, keq a b = true <-> a = b) ->
+  forall (bs : list (list A)) arr, Permutation arr (Reseq.numbered bs) ->
+  forall k, List.concat (get_out A K keq k (distribute_batches A K keq code n (Reseq.out (Reseq.run arr)))) =
+            filter (fun s => keq k (code s)) (List.concat bs).
+Proof.
+  intros A K keq code n Hk bs arr H k. destruct (Reseq.reseq_any_permutation _ _ _ H) as [Ho _]. rewrite Ho.
+  apply distribute_batches_flat; exact Hk.
+Qed.
+Theorem divide_any_arrival : forall (A : Type) (n : nat) (p : A -> bool) (bs : list (list A)) arr,
+  Permutation arr (Reseq.numbered bs) ->
+  List.concat (fst (divide_batches A n p (Reseq.out (Reseq.run arr)))) = filter p (List.concat bs) /\
+  List.concat (snd (divide_batches A n p (Reseq.out (Reseq.run arr)))) = filter (fun x => negb (p x)) (List.concat bs).
+Proof.
+  intros A n p bs arr H. destruct (Reseq.reseq_any_permutation _ _ _ H) as [Ho _]. rewrite Ho. apply divide_batches_flat.
+Qed.
+
+(** obimultiplex -u: DivideOn on the presence of obimultiplex_error *)
+Theorem unidentified_route : forall (l : list arec),
+  let err := fun r : arec => has_key "obimultiplex_error" (rattrs r) in
+  divide_on err l = (filter err l, filter (fun r => negb (err r)) l) /\
+  Permutation (fst (divide_on err l) ++ snd (divide_on err l)) l /\
+  (forall r, In r (fst (divide_on err l)) -> err r = true) /\ (forall r, In r (snd (divide_on err l)) -> err r = false).
+Proof.
+  intros l err. destruct (divide_complement arec err l) as [H1 [H2 [H3 [H4 H5]]]].
+  split; [apply divide_on_spec|]. split; [exact H3|]. split; assumption.
+Qed.
+
+(** * "changes nothing else" with the external edits requested too: their frame is a hypothesis *)
+Section UntouchedExt.
+  Variable VEXPR : Type.
+  Variable eval_val : VEXPR -> arec -> option aval.
+  Variable at_rank : string -> arec -> arec.
+  Variables set_path set_trank set_sciname : arec -> arec.
+  Variable set_lca : string -> arec -> arec.
+  Variable AHO : Type.
+  Variable aho_edit : AHO -> arec -> arec.
+  Variable APAT : Type.
+  Variable apat_src : APAT -> string.
+  Variable apat_rc : APAT -> APAT.
+  Variable best_match : APAT -> Z -> bool -> string -> option (Z * Z * Z).
+  Notation aopts := (aopts VEXPR AHO APAT).
+  Notation spec_annot := (spec_annot VEXPR eval_val at_rank set_path set_trank set_sciname set_lca AHO aho_edit APAT apat_src apat_rc best_match).
+  Notation e_settag := (e_settag VEXPR eval_val).
+  Notation e_setid := (e_setid VEXPR eval_val).
+  Notation e_pattern := (e_pattern APAT apat_src apat_rc best_match).
+
+  (** the slots the external components may write *)
+  Variable ext_key : string -> bool.
+  Definition frame (f : arec -> arec) : Prop :=
+    forall r, rid (f r) = rid r /\ rseq (f r) = rseq r /\
+              forall k, ext_key k = false -> lookup k (rattrs (f r)) = lookup k (rattrs r).
+  Hypothesis at_rank_frame : forall rk, frame (at_rank rk).
+  Hypothesis path_frame : frame set_path.
+  Hypothesis trank_frame : frame set_trank.
+  Hypothesis sciname_frame : frame set_sciname.
+  Hypothesis lca_frame : forall s, frame (set_lca s).
+  Hypothesis aho_frame : forall h, frame (aho_edit h).
+
+  Lemma frame_id : frame (fun r => r).
+  Proof. intros r; auto. Qed.
+  Lemma frame_comp : forall f g, frame f -> frame g -> frame (fun r => g (f r)).
+  Proof.
+    intros f g Hf Hg r. destruct (Hf r) as [F1 [F2 F3]]. destruct (Hg (f r)) as [G1 [G2 G3]].
+    rewrite G1, G2, F1, F2. split; [reflexivity|]. split; [reflexivity|]. intros k Hk. rewrite (G3 k Hk). apply F3; exact Hk.
+  Qed.
+  Lemma frame_if : forall (c : bool) f, frame f -> frame (fun r => if c then f r else r).
+  Proof. intros [|] f Hf; [exact Hf|apply frame_id]. Qed.
+  Lemma taxranks_frame : forall rks, frame (e_taxranks at_rank rks).
+  Proof.
+    intros rks; induction rks as [|rk t IH]; [apply frame_id|].
+    intros r. unfold e_taxranks; simpl. apply (frame_comp (at_rank rk) (e_taxranks at_rank t) (at_rank_frame rk) IH).
+  Qed.
+
+  (** the keys written by --pattern *)
+  Definition pat_keys (name k : string) : bool :=
+    String.eqb k (pat_slot name) || String.eqb k (append (pat_name name) "_match") ||
+    String.eqb k (append (pat_name name) "_error") || String.eqb k (append (pat_name name) "_location").
+  Lemma set_match_frame : forall r p name m loc n k, pat_keys name k = false ->
+    rid (set_match APAT apat_src r p name m loc n) = rid r /\ rseq (set_match APAT apat_src r p name m loc n) = rseq r /\
+    lookup k (rattrs (set_match APAT apat_src r p name m loc n)) = lookup k (rattrs r).
+  Proof.
+    intros r p name m loc n k H. unfold pat_keys in H. rewrite !orb_false_iff in H. destruct H as [[[H1 H2] H3] H4].
+    unfold set_match; simpl. split; [reflexivity|]. split; [reflexivity|].
+    rewrite lookup_set_ne by exact H4. rewrite lookup_set_ne by exact H3. rewrite lookup_set_ne by exact H2.
+    apply lookup_set_ne; exact H1.
+  Qed.
+  Lemma e_pattern_frame : forall p name e both indel r k, pat_keys name k = false ->
+    rid (e_pattern p name e both indel r) = rid r /\ rseq (e_pattern p name e both indel r) = rseq r /\
+    lookup k (rattrs (e_pattern p name e both indel r)) = lookup k (rattrs r).
+  Proof.
+    intros p name e both indel r k H. unfold Model.e_pattern.
+    destruct (best_match p e indel (rseq r)) as [[[st en] n]|]; [apply set_match_frame; exact H|].
+    destruct both; [|auto]. destruct (best_match (apat_rc p) e indel (rseq r)) as [[[st en] n]|]; [apply set_match_frame; exact H|auto].
+  Qed.
+
+  (** the edits between set-id and -S, as one function *)
+  Definition mid_edits (o : aopts) (r1 : arec) : arec :=
+    let x := e_delete (adelete _ _ _ o) r1 in
+    let x := match akeep _ _ _ o with [] => x | ks => e_keep ks x end in
+    let x := e_rename (arename _ _ _ o) x in
+    let x := e_taxranks at_rank (ataxrank _ _ _ o) x in
+    let x := if apath _ _ _ o then set_path x else x in
+    let x := if atrank _ _ _ o then set_trank x else x in
+    let x := if asciname _ _ _ o then set_sciname x else x in
+    let x := if negb (String.eqb (alca _ _ _ o) "") then set_lca (alca _ _ _ o) x else x in
+    if alength _ _ _ o then e_length x else x.
+  Lemma spec_annot_shape : forall (o : aopts) r,
+    spec_annot o r =
+    obind (match asetid _ _ _ o with Some e => e_setid e (if aclear _ _ _ o then e_clear r else r) | None => Some (if aclear _ _ _ o then e_clear r else r) end) (fun r1 =>
+    obind (fold_left (fun x ke => obind x (e_settag ke)) (asettag _ _ _ o) (Some (mid_edits o r1))) (fun r3 =>
+    obind (match has_cut VEXPR AHO APAT o with Some (f, t) => e_cut f t (match aaho _ _ _ o with Some h => aho_edit h r3 | None => r3 end)
+           | None => Some (match aaho _ _ _ o with Some h => aho_edit h r3 | None => r3 end) end) (fun r5 =>
+    Some (match apattern _ _ _ o with
+          | Some p => e_pattern p (ptname _ _ _ o) (pterr _ _ _ o) (negb (ptfwd _ _ _ o)) (ptindel _ _ _ o) r5
+          | None => r5 end)))).
+  Proof. intros o r. reflexivity. Qed.
+
+  Lemma ext_block_frame : forall (o : aopts), frame (fun x =>
+    let x := e_taxranks at_rank (ataxrank _ _ _ o) x in
+    let x := if apath _ _ _ o then set_path x else x in
+    let x := if atrank _ _ _ o then set_trank x else x in
+    let x := if asciname _ _ _ o then set_sciname x else x in
+    if negb (String.eqb (alca _ _ _ o) "") then set_lca (alca _ _ _ o) x else x).
+  Proof.
+    intros o.
+    apply (frame_comp _ (fun x => if negb (String.eqb (alca _ _ _ o) "") then set_lca (alca _ _ _ o) x else x)); [|apply frame_if, lca_frame].
+    apply (frame_comp _ (fun x => if asciname _ _ _ o then set_sciname x else x)); [|apply frame_if, sciname_frame].
+    apply (frame_comp _ (fun x => if atrank _ _ _ o then set_trank x else x)); [|apply frame_if, trank_frame].
+    apply (frame_comp _ (fun x => if apath _ _ _ o then set_path x else x)); [|apply frame_if, path_frame].
+    apply taxranks_frame.
+  Qed.
+
+  Theorem annot_untouched_ext : forall (o : aopts) r r' k,
+    spec_annot o r = Some r' ->
+    aclear _ _ _ o = false -> (akeep _ _ _ o = [] \/ mem_str k (akeep _ _ _ o) = true) ->
+    touched VEXPR AHO APAT o k = false -> ext_key k = false ->
+    (apattern _ _ _ o = None \/ pat_keys (ptname _ _ _ o) k = false) ->
+    lookup k (rattrs r') = lookup k (rattrs r).
+  Proof.
+    intros o r r' k H Hc Hk Ht He Hp. rewrite spec_annot_shape in H. rewrite Hc in H.
+    unfold touched in Ht. rewrite !orb_false_iff in Ht. destruct Ht as [[[Td Tr] Tl] Ts].
+    destruct (match asetid _ _ _ o with Some e => e_setid e r | None => Some r end) as [r1|] eqn:E1; cbn [obind] in H; [|discriminate].
+    destruct (fold_left (fun x ke => obind x (e_settag ke)) (asettag _ _ _ o) (Some (mid_edits o r1))) as [r3|] eqn:E3; cbn [obind] in H; [|discriminate].
+    set (r4 := match aaho _ _ _ o with Some h => aho_edit h r3 | None => r3 end) in H.
+    destruct (match has_cut VEXPR AHO APAT o with Some (f, t) => e_cut f t r4 | None => Some r4 end) as [r5|] eqn:E5; cbn [obind] in H; [|discriminate].
+    injection H as H; subst r'.
+    assert (A1 : rattrs r1 = rattrs r).
+    { destruct (asetid _ _ _ o) as [e|]; [apply (e_setid_keeps VEXPR eval_val e r r1 E1)|injection E1 as E1; subst; reflexivity]. }
+    assert (A2 : lookup k (rattrs (mid_edits o r1)) = lookup k (rattrs r1)).
+    { unfold mid_edits. cbv zeta.
+      assert (B : forall x, lookup k (rattrs (if alength _ _ _ o then e_length x else x)) = lookup k (rattrs x)).
+      { intros x. destruct (alength _ _ _ o); [|reflexivity]. simpl in Tl. unfold e_length; simpl. apply lookup_set_ne; exact Tl. }
+      rewrite B. destruct (ext_block_frame o (e_rename (arename _ _ _ o) match akeep _ _ _ o with [] => e_delete (adelete _ _ _ o) r1 | ks => e_keep ks (e_delete (adelete _ _ _ o) r1) end)) as [_ [_ F]].
+      cbv zeta in F. rewrite (F k He). unfold e_rename. rewrite lookup_rename_fold by exact Tr.
+      assert (C : forall x, lookup k (rattrs (match akeep _ _ _ o with [] => x | ks => e_keep ks x end)) = lookup k (rattrs x)).
+      { intros x. destruct Hk as [Hk|Hk]; [rewrite Hk; reflexivity|].
+        destruct (akeep _ _ _ o) as [|a b] eqn:E; [reflexivity|]. unfold e_keep, set_attrs; cbn [rattrs]. apply lookup_keep; exact Hk. }
+      rewrite C. unfold e_delete; simpl. apply lookup_delete_fold; exact Td. }
+    assert (A3 : lookup k (rattrs r3) = lookup k (rattrs (mid_edits o r1))) by (apply (proj1 (settag_fold VEXPR eval_val _ _ _ k E3)); exact Ts).
+    assert (A4 : lookup k (rattrs r4) = lookup k (rattrs r3)).
+    { unfold r4. destruct (aaho _ _ _ o) as [h|]; [|reflexivity]. destruct (aho_frame h r3) as [_ [_ F]]. apply F; exact He. }
+    assert (A5 : rattrs r5 = rattrs r4).
+    { destruct (has_cut VEXPR AHO APAT o) as [[f t]|]; [apply (e_cut_attrs f t r4 r5 E5)|injection E5 as E5; subst; reflexivity]. }
+    assert (A6 : lookup k (rattrs (match apattern _ _ _ o with
+                                   | Some p => e_pattern p (ptname _ _ _ o) (pterr _ _ _ o) (negb (ptfwd _ _ _ o)) (ptindel _ _ _ o) r5
+                                   | None => r5 end)) = lookup k (rattrs r5)).
+    { destruct (apattern _ _ _ o) as [p|]; [|reflexivity]. destruct Hp as [Hp|Hp]; [discriminate|].
+      apply e_pattern_frame; exact Hp. }
+    rewrite A6, A5, A4, A3, A2, A1. reflexivity.
+  Qed.
+End UntouchedExt.
+
+(** the frame hypotheses are satisfiable by the concrete taxonomy edits of the correspondence *)
+Lemma c_sciname_frame : frame (fun k => String.eqb k "scienctific_name") c_set_sciname.
+Proof.
+  intros r. unfold c_set_sciname; simpl. split; [reflexivity|]. split; [reflexivity|].
+  intros k Hk. apply lookup_set_ne; exact Hk.
 Qed.
